@@ -1,5 +1,11 @@
 """Scheduler histories (C01, C02, C05, C06): real API driven by JSON-able op lists, with an independent
-property-level oracle and the run-time contract monitors.  Runs under /venv/bin/python."""
+property-level oracle and the run-time contract monitors.  Runs under /venv/bin/python.
+
+ops:  ('add', id, prio, freq, start, end|None, script) ('remove', id) ('step', n) ('exec', n) ('step_err',)
+      ('complete',) ('bad_exec', value)
+script actions performed by a system when it runs: ('complete'[, t]) ('remove', id[, t]) ('add', id, prio[, t])
+The oracle keeps its own registry (parameters as given in the ops - never read back from the objects).
+"""
 import itertools
 import random
 import sys
@@ -9,6 +15,15 @@ from pyvc import specs as S      # noqa: E402
 from replayers import monitor    # noqa: E402
 
 BIG = sys.maxsize
+
+
+class Rec:
+    def __init__(self, obj, sid, prio, freq, start, end, stamp, script):
+        self.obj, self.id, self.prio, self.freq, self.start, self.end = obj, sid, prio, freq, start, end
+        self.stamp, self.script = stamp, script
+
+    def due(self, t):
+        return self.start <= t <= self.end and (t - self.start) % self.freq == 0
 
 
 def make_world():
@@ -25,14 +40,12 @@ def make_world():
         def execute(self):
             w = self.world
             sm = self.model.systems
-            # native evaluation of the abstract contract's call-site monitors (same predicate text)
-            import contracts.core as cc
-            caller = S.Old(self=sm)
             mons = S.REG.contracts['Core.System.execute'].monitor.items()
             if not monitor.CURRENT.get('Core.SystemManager.execute_systems'):
                 mons = []          # the scheduler's precondition did not hold: its call-site monitors say nothing
+            caller = S.Old(self=sm)
             for tag, preds in mons:
-                if tag == 'C01' and w.dynamic:
+                if w.dynamic:
                     continue
                 for p in preds:
                     try:
@@ -44,19 +57,24 @@ def make_world():
             S.GHOST.runs[self] += 1
             S.GHOST.last = self
             w.log.append((sm.timestep, self.id, id(self)))
+            t = sm.timestep
             for act in self.script:
-                if act[0] == 'complete' and (len(act) == 1 or act[1] == sm.timestep):
+                if act[0] == 'complete' and (len(act) == 1 or act[1] == t):
                     self.model.complete()
-                elif act[0] == 'remove' and (len(act) == 2 or act[2] == sm.timestep):
+                    w.completed_at = len(w.log)
+                elif act[0] == 'remove' and (len(act) == 2 or act[2] == t):
                     if act[1] in sm.systems:
-                        w.removed.add(id(sm.systems[act[1]]))
+                        w.removed[id(sm.systems[act[1]])] = len(w.log)
+                        w.reg = [r for r in w.reg if r.id != act[1]]
                         sm.remove_system(act[1])
-                elif act[0] == 'add' and (len(act) == 3 or act[3] == sm.timestep):
+                elif act[0] == 'add' and (len(act) == 3 or act[3] == t):
                     sid, prio = act[1], act[2]
                     if sid not in sm.systems:
                         s = Scripted(sid, self.model, prio, world=w)
                         sm.add_system(s)
                         w.added.add(id(s))
+                        w.reg.append(Rec(s, sid, prio, 1, 0, BIG, w.stamp, []))
+                        w.stamp += 1
 
     class World:
         pass
@@ -64,22 +82,17 @@ def make_world():
     w.model = Model(seed=1)
     w.Scripted = Scripted
     w.log = []
-    w.removed = set()
+    w.removed = {}
     w.added = set()
-    w.reg = []          # oracle: registration history [(stamp, sys)]
+    w.reg = []
     w.stamp = 0
     w.dynamic = False
+    w.completed_at = None
     return w
 
 
 def expected_order(w):
-    live = [(s, st) for st, s in w.reg]
-    live.sort(key=lambda p: (-p[0].priority, p[1]))
-    return [s for s, _ in live]
-
-
-def due(s, t):
-    return s.start <= t <= s.end and (t - s.start) % s.frequency == 0
+    return sorted(w.reg, key=lambda r: (-r.prio, r.stamp))
 
 
 def run_history(ops, props=('C01', 'C02', 'C05', 'C06')):
@@ -89,42 +102,78 @@ def run_history(ops, props=('C01', 'C02', 'C05', 'C06')):
     m = w.model
     sm = m.systems
     out = []
-    w.dynamic = any(op[0] == 'add' and op[6] for op in ops if op[0] == 'add' and len(op) > 6 and
-                    any(a[0] in ('add', 'remove') for a in op[6]))
+    w.dynamic = any(op[0] == 'add' and any(a[0] in ('add', 'remove') for a in op[6]) for op in ops)
+    dyn = 'C05' if w.dynamic else None
     for op in ops:
         kind = op[0]
         if kind == 'add':
             _, sid, prio, freq, start, end, script = op
-            s = w.Scripted(sid, m, prio, freq, start, end if end is not None else BIG, script=script, world=w)
-            before = list(sm.execution_queue), dict(sm.systems)
+            end = BIG if end is None else end
+            s = w.Scripted(sid, m, prio, freq, start, end, script=script, world=w)
+            taken = any(r.id == sid for r in w.reg)
+            before = monitor.fingerprint((sm.systems, sm.execution_queue))
             try:
                 sm.add_system(s)
-                if sid in before[1]:
-                    out.append(('C01', f'duplicate registration of {sid} accepted'))
-                w.reg.append((w.stamp, s))
+                if taken:
+                    out.append(('C01', f'registration of {sid} accepted although the identifier is in use'))
+                w.reg.append(Rec(s, sid, prio, freq, start, end, w.stamp, script))
                 w.stamp += 1
             except KeyError:
-                if sid not in before[1]:
+                if not taken:
                     out.append(('C01', f'fresh registration of {sid} rejected'))
-                if (list(sm.execution_queue), dict(sm.systems)) != before:
+                if monitor.fingerprint((sm.systems, sm.execution_queue)) != before:
                     out.append(('C01', f'rejected registration of {sid} changed the scheduler'))
         elif kind == 'remove':
             sid = op[1]
-            before = list(sm.execution_queue), dict(sm.systems)
+            present = any(r.id == sid for r in w.reg)
+            before = monitor.fingerprint((sm.systems, sm.execution_queue))
             try:
                 sm.remove_system(sid)
-                if sid not in before[1]:
+                if not present:
                     out.append(('C01', f'removal of unknown {sid} accepted'))
-                w.reg = [(st, s) for st, s in w.reg if s.id != sid]
+                w.reg = [r for r in w.reg if r.id != sid]
             except SystemNotFoundError:
-                if sid in before[1]:
+                if present:
                     out.append(('C01', f'removal of registered {sid} rejected'))
-                if (list(sm.execution_queue), dict(sm.systems)) != before:
+                if monitor.fingerprint((sm.systems, sm.execution_queue)) != before:
                     out.append(('C01', f'rejected removal of {sid} changed the scheduler'))
         elif kind == 'complete':
             m.complete()
+        elif kind == 'bad_exec':
+            t0 = sm.timestep
+            try:
+                m.execute(op[1])
+                out.append(('C02', f'execute({op[1]!r}) accepted'))
+            except (TypeError, ValueError):
+                pass
+            if sm.timestep != t0:
+                out.append(('C02', f'rejected execute({op[1]!r}) advanced time'))
         elif kind in ('step', 'step_err', 'exec'):
             n = op[1] if len(op) > 1 else 1
+            if kind == 'exec':
+                # n steps in one call: oracle = n single steps of bookkeeping
+                t0 = sm.timestep
+                was_running = m.is_running()
+                w.log.clear()
+                w.removed.clear()
+                w.added.clear()
+                w.completed_at = None
+                start_reg = expected_order(w)
+                m.execute(n)
+                if not was_running:
+                    if w.log:
+                        out.append(('C06', f'systems ran on a completed model: {[x[1] for x in w.log]}'))
+                    if sm.timestep != t0:
+                        out.append(('C06', f'execute({n}) advanced a completed model from {t0} to {sm.timestep}'))
+                elif m.is_running():
+                    if sm.timestep != t0 + n:
+                        out.append(('C02', f'execute({n}): timestep {t0} -> {sm.timestep}'))
+                    if not w.dynamic:
+                        exp = [(t, r.id) for t in range(t0, t0 + n) for r in start_reg if r.due(t)]
+                        got = [(x[0], x[1]) for x in w.log]
+                        if exp != got:
+                            out.append(('C02', f'execute({n}) ran {got}, n single steps would run {exp}'))
+                continue
             for _ in range(n if kind == 'step' else 1):
                 t0 = sm.timestep
                 was_running = m.is_running()
@@ -132,13 +181,11 @@ def run_history(ops, props=('C01', 'C02', 'C05', 'C06')):
                 w.log.clear()
                 w.removed.clear()
                 w.added.clear()
-                S.GHOST.reset()
+                w.completed_at = None
                 state0 = monitor.fingerprint((sm.systems, sm.execution_queue, sm.timestep))
                 try:
                     if kind == 'step':
                         m.execute()
-                    elif kind == 'exec':
-                        m.execute(n)
                     else:
                         sm.execute_systems(True)
                         if not was_running:
@@ -158,57 +205,31 @@ def run_history(ops, props=('C01', 'C02', 'C05', 'C06')):
                     if m.is_running() or bool(m):
                         out.append(('C06', 'completed model reports running'))
                     continue
-                if kind == 'exec':
-                    continue
                 if sm.timestep != t0 + 1:
                     out.append(('C02', f'timestep {t0} -> {sm.timestep} after one step'))
                 if m.timestep != sm.timestep:
                     out.append(('C02', 'model.timestep != scheduler timestep'))
-                # no system twice
                 if len(set(ran)) != len(ran):
-                    out.append(('C05' if (w.removed or w.added) else 'C02', f'a system ran twice in one step: {ran_ids}'))
-                # order among those that ran: priority desc, registration asc (for systems registered at step start)
-                pos = {id(s): k for k, s in enumerate(start_reg)}
+                    out.append((dyn or 'C02', f'a system ran twice in one step: {ran_ids}'))
+                pos = {id(r.obj): k for k, r in enumerate(start_reg)}
                 seq = [pos[r] for r in ran if r in pos]
                 if seq != sorted(seq):
-                    out.append(('C05' if (w.removed or w.added) else 'C01', f'run order {ran_ids} violates priority/registration order'))
-                # completeness / due-ness
-                completed_at = None
-                for k, s in enumerate(start_reg):
-                    stayed = id(s) not in w.removed
-                    isdue = due(s, t0)
-                    did = id(s) in ran
-                    if did and not isdue:
-                        out.append(('C02', f'{s.id} ran at t={t0} outside its window'))
-                    if isdue and stayed and not did and m.is_running():
-                        out.append(('C05' if (w.removed or w.added) else 'C02', f'{s.id} due at t={t0} did not run'))
-                if not m.is_running():
-                    # nothing may run after the completing system: the completing system is the last in the log
-                    completers = [x for x in w.log if any(a[0] == 'complete' for a in _script_of(start_reg, w, x[2]))]
-                    if completers:
-                        first = w.log.index(completers[0])
-                        if len(w.log) > first + 1:
-                            out.append(('C06', f'systems ran after completion: {ran_ids[first + 1:]}'))
-                # removed before its turn must not run
-                # (a system removed mid-step by an earlier system and not re-added)
-                order_idx = {id(s): k for k, s in enumerate(start_reg)}
-        elif kind == 'bad_exec':
-            t0 = sm.timestep
-            try:
-                m.execute(op[1])
-                out.append(('C02', f'execute({op[1]!r}) accepted'))
-            except (TypeError, ValueError):
-                pass
-            if sm.timestep != t0:
-                out.append(('C02', f'rejected execute({op[1]!r}) advanced time'))
+                    out.append((dyn or 'C01', f'run order {ran_ids} violates priority/registration order'))
+                if w.completed_at is not None and len(w.log) > w.completed_at:
+                    out.append(('C06', f'systems ran after completion within the step: {ran_ids[w.completed_at:]}'))
+                for r in start_reg:
+                    ident = id(r.obj)
+                    did = ident in ran
+                    if did and not r.due(t0):
+                        out.append(('C02', f'{r.id} ran at t={t0} outside its window'))
+                    if ident in w.removed and did and ran.index(ident) >= w.removed[ident]:
+                        out.append(('C05', f'{r.id} ran after it had been removed'))
+                    stayed = ident not in w.removed
+                    if r.due(t0) and stayed and not did and m.is_running():
+                        out.append((dyn or 'C02', f'{r.id} due at t={t0} did not run'))
+                if not m.is_running() and (m.is_running() or bool(m)):
+                    out.append(('C06', 'completed model reports running'))
     return out
-
-
-def _script_of(start_reg, w, ident):
-    for s in start_reg:
-        if id(s) == ident:
-            return s.script
-    return []
 
 
 # ------------------------------------------------------------------------------------------------ generators
@@ -222,12 +243,19 @@ def small_histories():
             if n >= 2:
                 yield ops + [('remove', 's0'), ('add', 's0', ps[0], 1, 0, None, []), ('step', 1)]
                 yield ops + [('add', 's1', 5, 1, 0, None, []), ('remove', 'zz'), ('step', 1)]
+                yield ops + [('remove', f's{n - 1}'), ('step', 1)]
     for f, st, en in itertools.product([1, 2, 3], [-2, 0, 1, 3], [None, 0, 2, 4]):
         yield [('add', 'a', 0, f, st, en, []), ('add', 'b', 0, 1, 0, None, []), ('step', 6)]
-    for pos in range(3):
-        ops = [('add', f's{k}', 2 - k, 1, 0, None, [('complete', 1)] if k == pos else []) for k in range(3)]
-        yield ops + [('step', 3), ('step_err',), ('exec', 2), ('add', 'late', 9, 1, 0, None, []), ('step', 1)]
+        yield [('add', 'b', 0, 1, 0, None, []), ('step', 4), ('add', 'a', 0, f, st, en, []), ('step', 7)]
+        yield [('add', 'b', 0, 1, 0, None, []), ('exec', 2), ('add', 'a', 1, f, st, en, []), ('exec', 6)]
+    for ps in itertools.product([0, 1], repeat=3):
+        for pos in range(3):
+            ops = [('add', f's{k}', ps[k], 1, 0, None, [('complete', 1)] if k == pos else []) for k in range(3)]
+            yield ops + [('step', 3), ('step_err',), ('exec', 2), ('add', 'late', 9, 1, 0, None, []), ('step', 1),
+                         ('remove', 's0'), ('remove', 's1'), ('remove', 's2'), ('remove', 'late'), ('exec', 2), ('step', 1)]
     yield [('add', 'a', 0, 1, 0, None, []), ('complete',), ('step', 1), ('step_err',), ('exec', 3)]
+    yield [('complete',), ('exec', 3), ('step', 1), ('step_err',)]
+    yield [('exec', 2), ('complete',), ('exec', 1), ('step', 2)]
     yield [('add', 'a', 0, 1, 0, None, []), ('bad_exec', 0), ('bad_exec', -1), ('bad_exec', 2.0), ('bad_exec', '3'),
            ('bad_exec', None), ('exec', 3), ('step', 1)]
 
@@ -249,25 +277,27 @@ def dynamic_histories():
 def random_history(rng, dynamic=False):
     ops = []
     ids = [f's{k}' for k in range(5)]
-    for _ in range(rng.randint(3, 10)):
+    for _ in range(rng.randint(3, 12)):
         r = rng.random()
         if r < 0.45:
             script = []
-            if rng.random() < 0.1:
+            if rng.random() < 0.12:
                 script.append(('complete', rng.randint(0, 6)))
             if dynamic and rng.random() < 0.4:
                 if rng.random() < 0.5:
                     script.append(('remove', rng.choice(ids), rng.randint(0, 4)))
                 else:
                     script.append(('add', 'n%d' % rng.randint(0, 2), rng.randint(-2, 3), rng.randint(0, 4)))
-            ops.append(('add', rng.choice(ids), rng.randint(-2, 2), rng.randint(1, 4), rng.randint(-3, 4),
-                        rng.choice([None, None, rng.randint(-1, 8)]), script))
+            ops.append(('add', rng.choice(ids), rng.randint(-1, 1), rng.randint(1, 4), rng.randint(-3, 5),
+                        rng.choice([None, None, rng.randint(-1, 9)]), script))
         elif r < 0.6:
             ops.append(('remove', rng.choice(ids)))
-        elif r < 0.9:
+        elif r < 0.85:
             ops.append(('step', rng.randint(1, 4)))
         elif r < 0.95:
-            ops.append(('exec', rng.randint(1, 3)))
+            ops.append(('exec', rng.randint(1, 4)))
+        elif r < 0.97:
+            ops.append(('complete',))
         else:
             ops.append(('step_err',))
     return ops
